@@ -8,6 +8,7 @@ import Gts.Lemmas.Record
 import Gts.Lemmas.MarksOps
 import Gts.Lemmas.MarkGuardOps
 import Gts.Lemmas.MarkGuardEmbed
+import Gts.Bridge.SeqInsert
 namespace Gts.C02
 open Gts Loc
 
@@ -238,5 +239,42 @@ theorem insert_guest_feature_marks_partial (host guest : Seq) (i : Int) (hi : 0 
    ⟨{ f with loc := f.loc.expand 0 i },
     mem_of_perm_map_append_right (embed_table_perm host guest i) hf, rfl, rfl,
     expand_marks_partial f.loc 0 i hw hi hg⟩⟩
+
+/-! ### the statements above, for the code AS IT IS WRITTEN NOW
+
+`Gts.Gen.seqInsert` / `seqEmbed` are regenerated from sequence.go on every run (go2lean/gseq.go) and
+`Gts/Bridge/SeqInsert.lean` proves them equal to the model wherever Go does not panic. -/
+
+/-- **`gts.Insert` as written**: for an index inside the host the function does not panic, its residues are
+`host[:i] + guest + host[i:]`, its table is a permutation of the shifted host features and the re-based guest
+features, and the host's metadata went through `tryShift(info, i, Len(guest))` -/
+theorem gen_insert_spec {ι : Type} (ops : Gen.InfoOps ι) (hi gi : ι) (host guest : Seq) (i : Int)
+    (h : 0 ≤ i ∧ i ≤ host.len) :
+    ∃ ff p, Gen.seqInsert ops hi host.feats host.bytes i gi guest.feats guest.bytes =
+        .ok (ops.tryShift hi i guest.len, ff, p) ∧
+      p = host.bytes.take i.toNat ++ guest.bytes ++ host.bytes.drop i.toNat ∧
+      ff.Perm (host.feats.map (fun f => { f with loc := f.loc.shift i guest.len }) ++
+        guest.feats.map (fun f => { f with loc := f.loc.expand 0 i })) :=
+  ⟨_, _, Bridge.seqInsert_eq ops hi gi host guest i h, insert_bytes host guest i, insert_table_perm host guest i⟩
+
+/-- **`gts.Insert` as written** panics (slice bounds out of range) for every index outside the host -/
+theorem gen_insert_panics {ι : Type} (ops : Gen.InfoOps ι) (hi gi : ι) (host guest : Seq) (i : Int)
+    (h : ¬ (0 ≤ i ∧ i ≤ host.len)) :
+    Gen.seqInsert ops hi host.feats host.bytes i gi guest.feats guest.bytes = .error .panic :=
+  Bridge.seqInsert_panic ops hi gi host guest i h
+
+/-- **`gts.Embed` as written**: the same residues, the host features re-located by `Expand(i, Len(guest))` -/
+theorem gen_embed_spec {ι : Type} (ops : Gen.InfoOps ι) (hi gi : ι) (host guest : Seq) (i : Int)
+    (h : 0 ≤ i ∧ i ≤ host.len) :
+    ∃ ff p, Gen.seqEmbed ops hi host.feats host.bytes i gi guest.feats guest.bytes =
+        .ok (ops.tryExpand hi i guest.len, ff, p) ∧
+      p = host.bytes.take i.toNat ++ guest.bytes ++ host.bytes.drop i.toNat ∧
+      ff.Perm (host.feats.map (fun f => { f with loc := f.loc.expand i guest.len }) ++
+        guest.feats.map (fun f => { f with loc := f.loc.expand 0 i })) :=
+  ⟨_, _, Bridge.seqEmbed_eq ops hi gi host guest i h, embed_bytes host guest i, embed_table_perm host guest i⟩
+
+-- non-vacuity: an index inside (and one outside) a host of four residues
+example : (0 : Int) ≤ 2 ∧ (2 : Int) ≤ (⟨[⟨"gene", .ranged 1 3 false false, []⟩], [65, 67, 71, 84]⟩ : Seq).len := by decide
+example : ¬ ((0 : Int) ≤ 5 ∧ (5 : Int) ≤ (⟨[], [65, 67, 71, 84]⟩ : Seq).len) := by decide
 
 end Gts.C02
